@@ -334,9 +334,22 @@ def get_settings(input_dict: dict) -> Settings:
     # TODO: maybe change these to camelCase for consistency
     enable_decimals = input_dict["settings"].get("enable_decimals", None)
     disable_static_exceptions = input_dict["settings"].get("disableStaticExceptions", None)
+    # `-f solc_json` writes Settings.as_dict(), i.e. snake_case keys: accept
+    # them too, otherwise an exported bundle silently loses these settings
+    if disable_static_exceptions is None:
+        disable_static_exceptions = input_dict["settings"].get("disable_static_exceptions", None)
+    nonreentrancy_by_default = input_dict["settings"].get("nonreentrancy_by_default", None)
 
     # Create Venom optimization flags with the optimization level
     venom_flags = VenomOptimizationFlags(level=optimize)
+    exported_flags = input_dict["settings"].get("venom_flags")
+    if exported_flags is not None:
+        if not isinstance(exported_flags, dict):
+            raise JSONError("settings.venom_flags must be an object")
+        try:
+            venom_flags = VenomOptimizationFlags.from_dict(exported_flags)
+        except (TypeError, ValueError) as e:
+            raise JSONError(f"invalid settings.venom_flags: {e}")
 
     # Check for Venom-specific settings
     venom_settings = input_dict["settings"].get("venom", {})
@@ -375,6 +388,7 @@ def get_settings(input_dict: dict) -> Settings:
         debug=debug,
         enable_decimals=enable_decimals,
         disable_static_exceptions=disable_static_exceptions,
+        nonreentrancy_by_default=nonreentrancy_by_default,
         venom_flags=venom_flags,
     )
 
